@@ -246,7 +246,9 @@ pub fn run(t: &[&str]) -> String {
             if st(&c1) != st(&c2) || code1 != code2 { engine_out_ref.push(format!("{}=nonrepeatable:{}:{}", e, st(&c1), st(&c2))); continue; }
             if st(&c1) != "ok" { engine_out_ref.push(format!("{}={}", e, st(&c1))); continue; }
             let code_info = match &code1 { Some(c) => format!(":code={}.{:016x}", c.len(), fnv(c)), None => String::new() };
-            if let Some(c) = &code1 { engine_out_ref.push(format!("jitcode={}.{:016x}", c.len(), fnv(c))); }
+            if let Some(c) = &code1 { engine_out_ref.push(format!("jitcode={}.{:016x}", c.len(), fnv(c)));
+                let sz = match &vm { Vm::Mbuff(v) => v.verif_jit_sizing(), Vm::Raw(v) => v.verif_jit_sizing(), Vm::NoData(v) => v.verif_jit_sizing(), Vm::Fixed(v) => v.verif_jit_sizing() };
+                if let Some((p1, buf)) = sz { engine_out_ref.push(format!("jitsizing={}.{}", p1, buf)); } }
             if (!interp_ok && !force.contains(e)) || norun { engine_out_ref.push(format!("{}=compiled{}", e, code_info)); continue; }   // outside the claim: never run unchecked code
             // run the generated code in a forked child: a fault, trap or endless loop must not take the harness down
             let vmref = &mut vm;
@@ -747,5 +749,19 @@ pub fn gen_anyprog_engines(w: &mut impl Write, thorough: bool, seed: u64) {
         if p.len() > 16 * 400 || p == "-" { continue; }
         k += 1; if !thorough && k % 3 != 0 { continue; }
         writeln!(w, "exec tag=anyprog prog={} helpers=1:0,2:1,ffffffff:2 engines=jit,clif kind=mbuff norun=1 anyprog=1", p).unwrap();
+    }
+}
+
+/// C12: the code buffer is sized by a first pass: programs whose machine code ends within a few bytes of a page boundary,
+/// byte by byte (every dead `exit` is one byte of code), on the VM kinds with different prologues
+pub fn gen_pageboundary(w: &mut impl Write, thorough: bool, _seed: u64) {
+    for kind in ["mbuff", "raw", "fixed"] {
+        let (lo, hi) = if thorough { (3900usize, 4200usize) } else { (3980usize, 4060usize) };
+        for n in lo..hi {
+            let mut p = Vec::with_capacity((n + 2) * 8);
+            p.extend(ins(0xb7, 0, 0, 0, 7)); p.extend(EXIT);
+            for _ in 0..n { p.extend(EXIT); }
+            writeln!(w, "exec tag=pageboundary prog={} budget=10 engines=jit kind={} norun=1", hex(&p), kind).unwrap();
+        }
     }
 }
